@@ -209,6 +209,94 @@ func check(raw json.RawMessage) error {
 	return nil
 }
 
+// History: several encodes and reads through ONE QRCodeWriter, ONE QRCodeReader and ONE
+// Decoder instance, with reads that fail in between; every step must behave as on fresh instances.
+type HStep struct {
+	Case  Case   `json:"case"`
+	Noise string `json:"noise,omitempty"` // "", blank, damaged: read this before the step's own symbol
+}
+type History struct {
+	Steps []HStep `json:"steps"`
+}
+
+func checkHistory(raw json.RawMessage) error {
+	var h History
+	if err := json.Unmarshal(raw, &h); err != nil {
+		return fmt.Errorf("hx: %v", err)
+	}
+	w, r, d := qrcode.NewQRCodeWriter(), qrcode.NewQRCodeReader(), decoder.NewDecoder()
+	pure := map[gozxing.DecodeHintType]interface{}{gozxing.DecodeHintType_PURE_BARCODE: true}
+	for i, st := range h.Steps {
+		c := st.Case
+		mode, n, hdr, ok := encodedLen(c.Text, c.Charset)
+		if !ok || n == 0 || (c.VHint > 0 && !qrref.Fits(mode, n, c.VHint, c.Level, hdr)) || (c.VHint == 0 && qrref.MinVersion(mode, n, c.Level, hdr) <= 0) {
+			return fmt.Errorf("hx: step outside the domain")
+		}
+		desc := fmt.Sprintf("step %d of %d on one writer/reader/decoder: text=%s level=%s vhint=%d mhint=%d charset=%q requested %dx%d margin %d after noise %q", i+1, len(h.Steps), show(c.Text), qrref.LevelNames[c.Level], c.VHint, c.MHint, c.Charset, c.ReqW, c.ReqH, c.Margin, st.Noise)
+		hh := hintsOf(c)
+		bm, err := w.Encode(c.Text, gozxing.BarcodeFormat_QR_CODE, c.ReqW, c.ReqH, hh)
+		if err != nil {
+			return fmt.Errorf("reused QRCodeWriter failed although the text fits: %v [%s]", err, desc)
+		}
+		fresh, err := qrcode.NewQRCodeWriter().Encode(c.Text, gozxing.BarcodeFormat_QR_CODE, c.ReqW, c.ReqH, hintsOf(c))
+		if err != nil {
+			return fmt.Errorf("fresh QRCodeWriter failed although the text fits: %v [%s]", err, desc)
+		}
+		if bm.GetWidth() != fresh.GetWidth() || bm.GetHeight() != fresh.GetHeight() || bm.String() != fresh.String() {
+			return fmt.Errorf("reused writer produced a different image (%dx%d) than a fresh one (%dx%d) [%s]", bm.GetWidth(), bm.GetHeight(), fresh.GetWidth(), fresh.GetHeight(), desc)
+		}
+		code, e := encoder.Encoder_encode(c.Text, qrx.LibLevel(c.Level), hh)
+		if e != nil {
+			return fmt.Errorf("encoding failed although the text fits: %v [%s]", e, desc)
+		}
+		bits := qrx.ByteMatrixToBits(code.GetMatrix())
+		if st.Noise != "" {
+			nz, _ := gozxing.NewBitMatrix(bm.GetWidth(), bm.GetHeight())
+			nb, _ := gozxing.NewBitMatrix(bits.GetWidth(), bits.GetHeight())
+			if st.Noise == "damaged" {
+				// the symbol with its lower half blanked: far beyond the correction capacity
+				for y := 0; y < bm.GetHeight()/2; y++ {
+					for x := 0; x < bm.GetWidth(); x++ {
+						if bm.Get(x, y) {
+							nz.Set(x, y)
+						}
+					}
+				}
+				for y := 0; y < bits.GetHeight()/2; y++ {
+					for x := 0; x < bits.GetWidth(); x++ {
+						if bits.Get(x, y) {
+							nb.Set(x, y)
+						}
+					}
+				}
+			}
+			nbmp, _ := gozxing.NewBinaryBitmapFromImage(nz)
+			r.Decode(nbmp, pure) // outcome irrelevant
+			r.Decode(nbmp, nil)
+			d.Decode(nb, nil)
+		}
+		res, err2 := d.Decode(bits, nil)
+		if err2 != nil {
+			return fmt.Errorf("reused Decoder failed on the produced module matrix: %v [%s]", err2, desc)
+		}
+		if res.GetText() != c.Text || res.GetECLevel() != qrref.LevelNames[c.Level] {
+			return fmt.Errorf("reused Decoder read %s at level %q [%s]", show(res.GetText()), res.GetECLevel(), desc)
+		}
+		bmp, _ := gozxing.NewBinaryBitmapFromImage(bm)
+		rr, err := r.Decode(bmp, pure)
+		if err != nil {
+			return fmt.Errorf("reused QRCodeReader failed on the rendered %dx%d image: %v [%s]", bm.GetWidth(), bm.GetHeight(), err, desc)
+		}
+		if rr.GetText() != c.Text || rr.GetBarcodeFormat() != gozxing.BarcodeFormat_QR_CODE {
+			return fmt.Errorf("reused QRCodeReader read %s [%s]", show(rr.GetText()), desc)
+		}
+		if ec, _ := rr.GetResultMetadata()[gozxing.ResultMetadataType_ERROR_CORRECTION_LEVEL].(string); ec != qrref.LevelNames[c.Level] {
+			return fmt.Errorf("reused QRCodeReader: ERROR_CORRECTION_LEVEL metadata %q, encoded %s [%s]", ec, qrref.LevelNames[c.Level], desc)
+		}
+	}
+	return nil
+}
+
 // --------------------------------------------------------------- generators
 
 var utf8Pools = [][]rune{
@@ -398,6 +486,7 @@ func sample(c Case) any {
 func TestCheck(t *testing.T) {
 	hx.Main(t, "C01", func(c *hx.Ctx) {
 		c.Register("qr_roundtrip", check)
+		c.Register("qr_history", checkHistory)
 	}, func(c *hx.Ctx) {
 		// grid: all 1280 (version, level, mask) configurations with boundary payloads
 		gridClasses := []string{"numeric", "alnum", "ascii", "kanji", "latin1all", "utf8", "sjismixed"}
@@ -482,6 +571,48 @@ func TestCheck(t *testing.T) {
 			c.SetExhaustive("length_sweep", false)
 		}
 
+		c.Rapid("instance_histories", c.N(150, 3000), func(t *rapid.T) {
+			var h History
+			n := rapid.IntRange(2, 4).Draw(t, "steps")
+			noisy := 0
+			levels, versions := map[int]bool{}, map[int]bool{}
+			for len(h.Steps) < n {
+				cs, _ := gen(t)
+				if _, m, _, ok := encodedLen(cs.Text, cs.Charset); !ok || m == 0 {
+					t.Skip("not representable")
+				}
+				cs.Image = true
+				if cs.ReqW > 400 || cs.ReqH > 400 {
+					cs.ReqW, cs.ReqH = 0, 0
+				}
+				st := HStep{Case: cs, Noise: rapid.SampledFrom([]string{"", "", "blank", "damaged"}).Draw(t, "noise")}
+				if st.Noise != "" {
+					noisy++
+				}
+				levels[cs.Level] = true
+				versions[cs.VHint] = true
+				h.Steps = append(h.Steps, st)
+			}
+			cl := fmt.Sprintf("steps=%d", n)
+			if noisy > 0 {
+				cl += ";failed_reads_between"
+			}
+			if len(levels) > 1 {
+				cl += ";level_changes"
+			}
+			raw, _ := json.Marshal(h)
+			c.Note("instance_histories", cl, noisy > 0 || len(levels) > 1 || len(versions) > 1, hx.Hash(raw), func() any {
+				hs := History{}
+				for _, st := range h.Steps {
+					st.Case = sample(st.Case).(Case)
+					hs.Steps = append(hs.Steps, st)
+				}
+				return hs
+			})
+			if err := c.Eval("qr_history", h); err != nil {
+				t.Fatalf("%v", err)
+			}
+		})
 		c.Rapid("random", c.N(1200, 20000), func(t *rapid.T) {
 			cs, cl := gen(t)
 			if _, n, _, ok := encodedLen(cs.Text, cs.Charset); !ok || n == 0 {
